@@ -147,6 +147,47 @@ fn model_lines(c: &Case) -> Vec<String> {
     l
 }
 
+/// Larger, GROUPED data: chains of 3-5 atoms whose middle relation has many rows per join key (1..40 rows sharing the
+/// key columns, stored contiguously or shuffled, distinguished by a unique tag column), so that per-key refinements
+/// of an atom are dense row ranges and per-value child nodes get cached (> 16 rows) — the regime of the executor's
+/// trie-node recycling and caches.  Compared with a direct evaluation, with :no-decomp, permuted atoms and 4 threads.
+fn grouped(rep: &mut Report, rng: &mut Rng, n: usize) {
+    for ci in 0..n {
+        let n_m = 1 + rng.below(5) as i64; let n_w = 1 + rng.below(3) as i64;
+        let group = [1i64, 5, 17, 20, 33, 40][rng.below(6)];
+        let mut a: Vec<(i64, i64, i64)> = vec![]; let mut tag = 1000;
+        for m in 0..n_m { for w in 0..n_w { let g = if rng.chance(1, 4) { 1 + rng.below(group as usize) as i64 } else { group }; for _ in 0..g { a.push((m, w, tag)); tag += 1; } } }
+        if rng.chance(1, 3) { rng.shuffle(&mut a); }
+        let p: Vec<(i64, i64)> = (0..n_m).filter(|_| rng.chance(4, 5)).map(|m| (m, m + 10)).collect();
+        let q: Vec<(i64, i64)> = (0..n_m).filter(|_| rng.chance(4, 5)).map(|m| (m + 10, 7)).collect();
+        let b: Vec<(i64, i64)> = (0..n_w).filter(|_| rng.chance(4, 5)).map(|w| (w, 5)).collect();
+        let extra_c = rng.chance(1, 2); // a fifth atom C(v) restricting the tags
+        let cset: Vec<i64> = a.iter().filter(|_| rng.chance(2, 3)).map(|r| r.2).collect();
+        let mut hdr = String::from("(relation P (i64 i64))\n(relation Q (i64 i64))\n(relation A (i64 i64 i64))\n(relation B (i64 i64))\n(relation C (i64))\n(relation Out (i64 i64 i64))\n");
+        for (x, y) in &p { hdr.push_str(&format!("(P {x} {y})\n")); } for (x, y) in &q { hdr.push_str(&format!("(Q {x} {y})\n")); }
+        for (x, y, z) in &a { hdr.push_str(&format!("(A {x} {y} {z})\n")); } for (x, y) in &b { hdr.push_str(&format!("(B {x} {y})\n")); }
+        for v in &cset { hdr.push_str(&format!("(C {v})\n")); }
+        let mut atoms = vec!["(P m p)", "(Q p q)", "(A m w v)", "(B w u)"]; if extra_c { atoms.push("(C v)"); }
+        let want: BTreeSet<Vec<i64>> = a.iter().filter(|(m, w, v)| p.iter().any(|(pm, pp)| pm == m && q.iter().any(|(qp, _)| qp == pp)) && b.iter().any(|(bw, _)| bw == w) && (!extra_c || cset.contains(v))).map(|(m, w, v)| vec![*m, *w, *v]).collect();
+        rep.evaluations += 1; rep.note_nontrivial(&("grouped", ci, n_m, n_w, group, extra_c));
+        let mut perm = atoms.clone(); rng.shuffle(&mut perm);
+        for (name, body, opts, threads) in [("default plan", atoms.clone(), "", 1usize), (":no-decomp", atoms.clone(), " :no-decomp", 1), ("atoms permuted", perm, "", 1), ("4 threads", atoms.clone(), "", 4)] {
+            if threads == 4 && ci % 4 != 0 { continue; }
+            let rule = format!("(rule ({}) ((Out m w v)){opts})\n(run 1)", body.join(" "));
+            let mut eg = EGraph::default().with_num_threads(threads);
+            if !engine::run(&mut eg, &hdr).is_ok() { rep.violate("correspondence", "c02-setup", "grouped setup rejected".into(), json!({})); break; }
+            let o = engine::run(&mut eg, &rule);
+            if !o.is_ok() { rep.violate("property", "c02-variant-rejected", format!("[grouped data] variant `{name}` failed: {o:?}"), json!({"program": hdr.clone() + &rule})); break; }
+            let got = read_out(&eg, false);
+            if got != want {
+                let missing: Vec<&Vec<i64>> = want.difference(&got).take(4).collect(); let extra: Vec<&Vec<i64>> = got.difference(&want).take(4).collect();
+                rep.violate("property", if name == "default plan" { "c02-wrong-matches" } else { "c02-plan-dependent" }, format!("[grouped data, {} rows of A, groups of {group}] variant `{name}`: the rule fired for the wrong set of substitutions: {} missing e.g. {missing:?}, {} extra e.g. {extra:?} (of {} expected)", a.len(), want.difference(&got).count(), got.difference(&want).count(), want.len()), json!({"program": hdr.clone() + &rule, "threads": threads}));
+                break;
+            }
+        }
+    }
+}
+
 pub fn run(ctx: &Ctx) -> Report {
     let mut rep = Report::new("C02", "random conjunctive bodies (1-6 relational atoms over 1-3 relations of arity 1-3, chain/star/cycle/random variable patterns, repeated variables, constants, a function atom possibly duplicated (functional dependency), a guard) over random databases with skewed cardinalities (0..45 rows, domains 2..9); fired once into an Out relation. non-trivial = >= 3 atoms, or a repeated variable / constant / guard / FD duplicate (distinct by case); decomposed plans counted through the cfg hook");
     let mut rng = Rng::new(ctx.seed ^ 0xC02);
@@ -192,6 +233,7 @@ pub fn run(ctx: &Ctx) -> Report {
             }
         }
     }
+    grouped(&mut rep, &mut rng, ctx.n(60, 1200));
     let log = egglog_core_relations::verif_hooks::take_plan_log();
     rep.count("plans_single_bag", log.iter().filter(|(_, b)| *b <= 1).count() as u64);
     rep.count("plans_decomposed", log.iter().filter(|(_, b)| *b > 1).count() as u64);
